@@ -651,7 +651,12 @@ func (b *treeBuilder) plant(root gen.S, rootPath string, pos refPosition, form, 
 	case "internal":
 		if coll == "" { // path items have no components collection in 3.0: use an extension-free alias path
 			dig(root, "paths")["/target"+marker] = target
-			finalRefFrom = func(string) string { return "#/paths/~1target" + marker }
+			finalRefFrom = func(from string) string {
+				if from == rootPath {
+					return "#/paths/~1target" + marker
+				}
+				return b.spell(from, rootPath, "plain") + "#/paths/~1target" + marker
+			}
 		} else {
 			dig(root, "components", coll)[name] = target
 			finalRefFrom = func(from string) string {
@@ -689,18 +694,28 @@ func (b *treeBuilder) plant(root gen.S, rootPath string, pos refPosition, form, 
 	case "chain2":
 		// site -> internal alias component -> target
 		if coll == "" {
-			plan.Ref = finalRefFrom(rootPath)
-			plan.Shape = "direct"
+			// path items: the alias is another path of the root; it sorts AFTER the site, so it is still a bare
+			// reference when the site is resolved
+			dig(root, "paths")["/zalias"+marker] = gen.S{"$ref": finalRefFrom(rootPath)}
+			plan.Ref = "#/paths/~1zalias" + marker
 			break
 		}
 		alias := "Alias" + marker
 		dig(root, "components", coll)[alias] = gen.S{"$ref": finalRefFrom(rootPath)}
 		plan.Ref = "#/components/" + coll + "/" + alias
+	case "chain-through-file-holding-a-reference":
+		// site -> a file whose whole content is a Reference Object -> target
+		hp := path.Join(b.rootDir, "hops", "deep", "ref-"+kind+"-"+marker+".json")
+		b.files[hp] = gen.S{"$ref": finalRefFrom(hp)}
+		b.rawExt[hp] = "json"
+		plan.Ref = b.spell(rootPath, hp, "plain")
 	case "chain3-two-files":
 		// site -> hop file component -> target (hop file in another directory)
 		if coll == "" {
-			plan.Ref = finalRefFrom(rootPath)
-			plan.Shape = "direct"
+			hp := path.Join(b.rootDir, "hops", "deep", "hop-"+kind+".json")
+			hop := b.libFile(hp)
+			dig(hop, "paths")["/hop"+marker] = gen.S{"$ref": finalRefFrom(hp)}
+			plan.Ref = b.spell(rootPath, hp, "plain") + "#/paths/~1hop" + marker
 			break
 		}
 		hp := path.Join(b.rootDir, "hops", "deep", "hop-"+kind+".json")
